@@ -117,6 +117,18 @@ def object_peaks(ctx, n, dt=0.01):
         ctx.observe(name, got)
         ctx.claim(name + '_is_calc_peak_of_series', ctx.eq(got, lib.im.calc_peak(series)))
         ctx.claim(name + '_read_idempotent', ctx.eq(getattr(s, name), got))
+    # every read order, with repeats, on one object: a peak must not depend on what was read before it (the three
+    # properties memoise into one shared dictionary)
+    import itertools
+    want = {'pga': lib.im.calc_peak(a), 'pgv': lib.im.calc_peak(v), 'pgd': lib.im.calc_peak(d)}
+    ok = []
+    for order in list(itertools.permutations(('pga', 'pgv', 'pgd'))) + [('pgd', 'pgd', 'pgv'), ('pgv', 'pgd', 'pgv', 'pga', 'pgd')]:
+        s2 = lib.AccSignal(a, dt)
+        for name in order:
+            ok.append(ctx.eq(getattr(s2, name), want[name]))
+        ok.append(ctx.eq(lib.im.calc_peak(s2.velocity), want['pgv']))
+        ok.append(ctx.eq(lib.im.calc_peak(s2.displacement), want['pgd']))
+    ctx.claim('peaks_independent_of_read_order', S.sym_and(*ok))
     ctx.claim('velocity_series_is_array_level', S.sym_and(*[ctx.eq(s.velocity[i], v[i]) for i in range(n)]))
     ctx.claim('displacement_series_is_array_level', S.sym_and(*[ctx.eq(s.displacement[i], d[i]) for i in range(n)]))
 
